@@ -16,21 +16,22 @@ Section Top.
   Notation frame := (frame crc).
 
   (** what was accepted by Write/WriteSync, in order *)
-  Definition written (ops : list wal_op) : list bytes := flat_map (accepted crc) ops.
+  Definition written (min : nat) (limit : Z) (ops : list wal_op) : list bytes :=
+    run_written crc (empty_group min limit) ops.
 
   (** the group after the operations and a final FlushAndSync *)
   Definition final_group (min : nat) (limit : Z) (ops : list wal_op) : group :=
     group_flush (wal_run crc (empty_group min limit) ops).
 
   Lemma final_files min limit ops :
-    exists chunks, disk_files (final_group min limit ops) = map frames chunks /\ concat chunks = written ops.
+    exists chunks, disk_files (final_group min limit ops) = map frames chunks /\ concat chunks = written min limit ops.
   Proof.
-    apply (flushed_files crc _ (written ops)).
-    change (written ops) with ([] ++ flat_map (accepted crc) ops). apply wal_run_inv. apply inv_empty.
+    apply (flushed_files crc _ (written min limit ops)).
+    change (written min limit ops) with ([] ++ run_written crc (empty_group min limit) ops). apply wal_run_inv. apply inv_empty.
   Qed.
 
   Lemma top_roundtrip min limit ops ms cont :
-    Forall2 good (written ops) ms ->
+    Forall2 good (written min limit ops) ms ->
     let g := final_group min limit ops in
     read_log crc msg deser cont RGroup (group_stream g (g_min g)) = map ObMsg ms ++ [ObEof].
   Proof.
@@ -44,7 +45,7 @@ Section Top.
   Proof. apply (roundtrip crc crc32c_lt msg deser). Qed.
 
   Lemma top_rotation min limit ops :
-    exists chunks, disk_files (final_group min limit ops) = map frames chunks /\ concat chunks = written ops.
+    exists chunks, disk_files (final_group min limit ops) = map frames chunks /\ concat chunks = written min limit ops.
   Proof. apply final_files. Qed.
 
   Lemma top_decode_sound k bs m rest :
@@ -95,24 +96,19 @@ Section Top.
   Notation mark := (mark msg deser end_height).
   Notation marks := (marks msg deser end_height).
 
+  Notation pos_marks := (pos_marks msg deser end_height).
+
   Lemma top_search min limit ops h ign :
-    Forall (goodp msg deser) (written ops) -> StronglySorted Z.lt (marks (written ops)) ->
+    Forall (goodp msg deser) (written min limit ops) -> StronglySorted Z.lt (pos_marks (written min limit ops)) ->
     let g := final_group min limit ops in
-    (forall pre p0 post, written ops = pre ++ p0 :: post -> mark p0 = Some h ->
+    (forall pre p0 post, (0 < h)%Z -> written min limit ops = pre ++ p0 :: post -> mark p0 = Some h ->
        search crc msg deser end_height g h ign = SFound (frames post)) /\
-    (~ In h (marks (written ops)) -> search crc msg deser end_height g h ign = SNotFound).
+    ((h <= 0)%Z -> In h (marks (written min limit ops)) -> exists rest, search crc msg deser end_height g h ign = SFound rest) /\
+    (~ In h (marks (written min limit ops)) -> search crc msg deser end_height g h ign = SNotFound).
   Proof.
     intros G S g. destruct (final_files min limit ops) as [chunks [D C]]. subst g. rewrite <- C in *.
     apply (search_iff crc crc32c_lt msg deser end_height _ chunks h ign D G S).
   Qed.
-
-  Lemma top_search_files g chunks h ign :
-    disk_files g = map frames chunks -> Forall (goodp msg deser) (concat chunks) ->
-    StronglySorted Z.lt (marks (concat chunks)) ->
-    (forall pre p0 post, concat chunks = pre ++ p0 :: post -> mark p0 = Some h ->
-       search crc msg deser end_height g h ign = SFound (frames post)) /\
-    (~ In h (marks (concat chunks)) -> search crc msg deser end_height g h ign = SNotFound).
-  Proof. apply (search_iff crc crc32c_lt). Qed.
 
   Lemma top_repair ps ms tail :
     Forall2 (canon msg ser deser) ps ms -> (forall m r, decode crc msg deser RFile tail <> OMsg m r) ->
@@ -141,6 +137,17 @@ Example toy_search :
     (final_group 0 10 [WWrite [3%N]; WTick; WWriteSync [7%N]; WTick; WWrite [9%N]]) 7 true
   = SFound (frame crc32c [9%N]).
 Proof. vm_compute. reflexivity. Qed.
+
+(** the restart scenario: the head was rotated away, the node restarts and OnStart writes its marker
+    (payload [[1]] here plays EndHeightMessage{0}) into the empty head; heights in older files are still found *)
+Definition toy0_deser (p : bytes) : option Z :=
+  match p with [b] => if (b =? 0)%N then None else Some (Z.of_N b - 1)%Z | _ => None end.
+Example toy_search_after_restart :
+  let ops := [WStart [1%N]; WWriteSync [4%N]; WWriteSync [5%N]; WTick; WStart [1%N]] in
+  written 0 10 ops = [[1%N]; [4%N]; [5%N]; [1%N]] /\
+  search crc32c Z toy0_deser toy_eh (final_group 0 10 ops) 3 true = SFound (frames crc32c [[5%N]; [1%N]]) /\
+  search crc32c Z toy0_deser toy_eh (final_group 0 10 ops) 4 true = SFound (frame crc32c [1%N]).
+Proof. vm_compute. repeat split; reflexivity. Qed.
 
 (** the zero-fill behaviour of the os.File reader is real: a frame whose payload ends in a zero
     byte, cut one byte short, is completed and decoded (to the message that was written) *)
